@@ -186,10 +186,17 @@ pub fn arb_hostile_liquidity_plan(p: &Profile) -> impl proptest::strategy::Strat
                 first.push(t);
             }
             steps.push(Step::Batch(first, 0));
-            for (txs, order, action) in rounds {
+            // histories that the profile fast-forwards to three blocks below the testnet's activation height (val % 4 == 1)
+            // are kept short and pointed: pools are created in the first block, redeemed in the second, and the
+            // activation is crossed with whatever that leaves behind
+            let pointed = cfg.val % 4 == 1;
+            let rounds: Vec<_> = if pointed { rounds.into_iter().take(2).collect() } else { rounds };
+            for (ri, (txs, order, action)) in rounds.into_iter().enumerate() {
                 let mut b = vec![];
                 for (mut t, what) in txs {
                     let k = match what {
+                        _ if pointed && ri == 0 => 3,
+                        _ if pointed => 4,
                         0..=9 => 4,
                         10..=12 => 1,
                         13..=15 => 3,
@@ -204,6 +211,10 @@ pub fn arb_hostile_liquidity_plan(p: &Profile) -> impl proptest::strategy::Strat
                 }
                 steps.push(Step::Batch(b, order));
                 steps.push(Step::Seal(action));
+            }
+            // a few empty blocks at the end (a history warped to just below an activation height crosses it)
+            for _ in 0..4 {
+                steps.push(Step::Seal(None));
             }
             crate::plan::Plan { cfg, steps }
         })
@@ -366,17 +377,20 @@ pub fn run(ctx: &Ctx) -> (Outcome, String, Option<bool>) {
     }
     let mut out = super::hist::run_histories(ctx, "hostile-histories", p, ctx.scale(3000, 30000), C09::default);
     {
-        let p3 = profile();
+        let p3 = profile3();
         let prof3 = p3.clone();
         out.absorb(crate::runner::run_sharded(
             ctx,
             "hostile-liquidity",
             ctx.scale(600, 8000),
-            move || arb_hostile_liquidity_plan(&prof3),
+            move || {
+                use proptest::strategy::Strategy;
+                arb_hostile_liquidity_plan(&prof3).prop_map(|p| super::hist::Phase2 { phase2: p })
+            },
             |plan, st, shard| {
                 st.eval();
                 st.class("hostile-liquidity-history");
-                crate::plan::run_plan(plan, &p3, &mut C09::default(), st, shard)
+                crate::plan::run_plan(&plan.phase2, &p3, &mut C09::default(), st, shard)
             },
         ));
     }
@@ -409,5 +423,16 @@ pub fn replay(case: &serde_json::Value) -> Check {
         let mut st = Stats::default();
         return super::c05::check_shape_with(&s, &mut st, 200, true);
     }
-    super::hist::replay_history(case, &profile(), C09::default())
+    super::hist::replay_two_phase(case, &profile(), &profile3(), C09::default())
+}
+
+/// The hostile-liquidity phase: a third of the histories on the testnet, most of those fast-forwarded to just below
+/// the height at which TIP-902/906 switch on, so that pools created and emptied before are carried across it.
+pub fn profile3() -> Profile {
+    let mut p = profile();
+    p.warp = true;
+    p.seed_funds = true;
+    p.nuggets = 12;
+    p.net_w = [30, 15, 35, 0, 4, 4, 4, 4, 4];
+    p
 }
